@@ -274,4 +274,37 @@ attribute [lane_nat] hi_mod_32 Nat.mod_mod BitVec.toNat_add BitVec.toNat_sub Bit
   and_or_shl32_toNat
 attribute [lane_nat high] cmpgt32_shr_toNat cmpgt64_and_toNat and_cmpgt64_toNat andnot_cmpgt64_toNat
 
+/-! ### unsigned compare-and-select on one lane (AVX-512 mask registers), folded like `ltN` -/
+
+/-- `if x < y then u else v` on lanes (unsigned); every `vpcmpuq` predicate under a masked operation is brought to
+  this form (`≤` by exchanging the branches) -/
+def ultSel (x y u v : BitVec 64) : BitVec 64 := if x < y then u else v
+/-- `if x = y then u else v` on lanes -/
+def eqSel (x y u v : BitVec 64) : BitVec 64 := if x = y then u else v
+/-- `if u = v then a else b` on `Nat`, folded (see `ltN`) -/
+def eqN (u v a b : Nat) : Nat := if u = v then a else b
+theorem eqN_def (u v a b : Nat) : eqN u v a b = if u = v then a else b := rfl
+
+theorem ultSel_toNat (x y u v : BitVec 64) : (ultSel x y u v).toNat = ltN x.toNat y.toNat u.toNat v.toNat := by
+  unfold ultSel ltN
+  by_cases h : x < y
+  · rw [if_pos h, if_pos (BitVec.lt_def.mp h)]
+  · rw [if_neg h, if_neg (fun h' => h (BitVec.lt_def.mpr h'))]
+theorem eqSel_toNat (x y u v : BitVec 64) : (eqSel x y u v).toNat = eqN x.toNat y.toNat u.toNat v.toNat := by
+  unfold eqSel eqN
+  by_cases h : x = y
+  · rw [if_pos h, if_pos (congrArg BitVec.toNat h)]
+  · rw [if_neg h, if_neg (fun h' => h (BitVec.eq_of_toNat_eq h'))]
+
+attribute [lane_nat] ultSel_toNat eqSel_toNat
+
+/-- `BitVec.toNat_add` holds by `rfl`, so `simp` leaves that step to the kernel's definitional-equality check; on
+  `x + c` with a 2^32-sized literal `c` (the AVX-512 kernels add `2^32 - 1` directly, the AVX2 kernels only under a
+  mask) the kernel then unfolds `Nat.add` literal-many times and never returns.  This copy is a proper rewrite rule
+  and is tried first. -/
+theorem toNat_add64 (x y : BitVec 64) : (x + y).toNat = (x.toNat + y.toNat) % 18446744073709551616 := by
+  have h : (2 : Nat) ^ 64 = 18446744073709551616 := by decide
+  rw [BitVec.toNat_add, h]
+attribute [lane_nat high] toNat_add64
+
 end GoldilocksVerif.Lane
